@@ -532,6 +532,8 @@ def lower_repo(repo):
     c2 = conditional_assignments(f)
     c3 = unroll_literal_loops(f, only_data_driven=True)
     c4 = constant_setattr(f)
+    c5 = thread_result_tests(f) if q in getattr(repo, 'flattened', {}) else False
+    c1 = c1 or c5
     if c1 or c2 or c3 or c4:
       done.append('%s: %s' % (q, ' + '.join(x for x, y in (('iteration forms', c1), ('conditional assignments', c2), ('attribute-table loops unrolled', c3),
                                                             ('constant setattr/getattr', c4)) if y)))
@@ -614,6 +616,115 @@ def conditional_assignments(f):
       out.append(st)
     return out
   node.body = block(node.body)
+  if changed[0]:
+    ast.fix_missing_locations(node)
+    for n in ast.walk(node):
+      for ch in ast.iter_child_nodes(n):
+        ch._parent = n
+  return changed[0]
+
+
+def thread_result_tests(f):
+  """Tail duplication + constant folding for result variables (as left behind by helper inlining):
+
+      if c: r = False          if c:  continue
+      else: r = True     ->    else:  <rest>
+      if not r: continue
+
+  When every path through an `if` statement ends by assigning one local r (or leaves the block), the statements that
+  follow up to the first `if` testing r (or an alias w = r) are copied behind each assignment, and the copied test is
+  decided where the assigned value makes it decidable (constants; a constructor call is not None)."""
+  node = f.node
+  changed = [False]
+
+  def leaves(stmts):
+    """[(list, index)] of the final assignments of every path, or None when some path falls through differently."""
+    if not stmts:
+      return None
+    last = stmts[-1]
+    if isinstance(last, (ast.Raise, ast.Return, ast.Continue, ast.Break)):
+      return []
+    if isinstance(last, ast.Assign) and len(last.targets) == 1 and isinstance(last.targets[0], ast.Name):
+      return [(stmts, len(stmts) - 1)]
+    if isinstance(last, ast.If) and last.orelse:
+      a, b = leaves(last.body), leaves(last.orelse)
+      if a is None or b is None:
+        return None
+      return a + b
+    return None
+
+  def decide(test, env):
+    """Truth value of `test` given env: name -> assigned value node, or None."""
+    if isinstance(test, ast.UnaryOp) and isinstance(test.op, ast.Not):
+      v = decide(test.operand, env)
+      return None if v is None else not v
+    if isinstance(test, ast.Name) and test.id in env:
+      val = env[test.id]
+      if isinstance(val, ast.Constant):
+        return bool(val.value)
+      return None
+    if isinstance(test, ast.Compare) and len(test.ops) == 1 and isinstance(test.left, ast.Name) and test.left.id in env:
+      val, op, rhs = env[test.left.id], test.ops[0], test.comparators[0]
+      if isinstance(rhs, ast.Constant) and rhs.value is None and isinstance(op, (ast.Is, ast.IsNot)):
+        if isinstance(val, ast.Constant):
+          isnone = val.value is None
+        elif isinstance(val, ast.Call) and (norm_name(val.func)[:1].isupper()):
+          isnone = False
+        elif isinstance(val, (ast.Tuple, ast.List, ast.Dict, ast.Set)):
+          isnone = False
+        else:
+          return None
+        return isnone if isinstance(op, ast.Is) else not isnone
+      if isinstance(rhs, ast.Constant) and isinstance(val, ast.Constant) and isinstance(op, (ast.Eq, ast.NotEq)):
+        return (val.value == rhs.value) if isinstance(op, ast.Eq) else (val.value != rhs.value)
+    return None
+
+  def norm_name(fn):
+    return fn.attr if isinstance(fn, ast.Attribute) else fn.id if isinstance(fn, ast.Name) else ''
+
+  def names_in(e):
+    return {x.id for x in ast.walk(e) if isinstance(x, ast.Name)}
+
+  def block(stmts):
+    i = 0
+    while i < len(stmts):
+      st = stmts[i]
+      if not isinstance(st, (ast.FunctionDef, ast.ClassDef, ast.AsyncFunctionDef)):
+        for fld in ('body', 'orelse', 'finalbody'):
+          if hasattr(st, fld) and isinstance(getattr(st, fld), list):
+            block(getattr(st, fld))
+        if isinstance(st, ast.Try):
+          for hd in st.handlers:
+            block(hd.body)
+      if isinstance(st, ast.If) and st.orelse:
+        lv = leaves([st])
+        if lv:
+          targets = {lst[k].targets[0].id for lst, k in lv}
+          if len(targets) == 1:
+            r = next(iter(targets))
+            # following statements: aliases of r, then an `if` over r / its aliases
+            j = i + 1
+            aliases = {r}
+            while j < len(stmts) and isinstance(stmts[j], ast.Assign) and len(stmts[j].targets) == 1 and isinstance(stmts[j].targets[0], ast.Name) \
+                and isinstance(stmts[j].value, ast.Name) and stmts[j].value.id in aliases:
+              aliases.add(stmts[j].targets[0].id)
+              j += 1
+            if j < len(stmts) and isinstance(stmts[j], ast.If) and names_in(stmts[j].test) and names_in(stmts[j].test) <= aliases:
+              run = stmts[i + 1:j + 1]
+              for lst, k in lv:
+                val = lst[k].value
+                env = {a: val for a in aliases}
+                copy = [dataflow.clone(x) for x in run]
+                tst = copy[-1]
+                v = decide(tst.test, env)
+                tail = copy[:-1] + ([tst] if v is None else (tst.body if v else tst.orelse))
+                lst[k + 1:k + 1] = tail
+              del stmts[i + 1:j + 1]
+              changed[0] = True
+              continue        # re-examine the same statement (nested results)
+      i += 1
+    return stmts
+  block(node.body)
   if changed[0]:
     ast.fix_missing_locations(node)
     for n in ast.walk(node):
